@@ -1335,4 +1335,184 @@ theorem gdef_var_deltas_preserved_partial {p : LPlan} {g : GdefIn} {o : GdefOut}
         rfl
       · rw [e1, e2, eg]; exact hrows.2
 
+/-! ## 4. GSUB / GPOS are passed through: what that means
+
+`subset_table` has no arm for GSUB / GPOS: `passthrough_table` copies the bytes
+(`SubsetGdef.passthrough = id`).  The subset's lookups are the ORIGINAL ones — in old glyph ids.
+No "subset subtable applied to the renumbered sequence" theorem can be stated about klippa,
+because no subtable is subset.  What can be stated is when the verbatim copy happens to be right. -/
+
+theorem passthrough_is_identity (bytes : List Nat) : passthrough bytes = bytes := rfl
+
+/-- a glyph map: injective partial function -/
+def GlyphMapInj (f : Nat → Option Nat) : Prop := ∀ a b n, f a = some n → f b = some n → a = b
+
+/-- the passed-through SingleSubst is right for kept inputs: applying the (unchanged) subtable to the
+renumbered glyph gives the renumbering of what the original gives -/
+def SingleCorrect (f : Nat → Option Nat) (t : SingleSubst) : Prop :=
+  ∀ g n, f g = some n → t.apply n = (t.apply g).bind f
+
+/-- the passed-through PairPos format 1 subtable gives a renumbered kept pair the original value -/
+def PairCorrect {V : Type} (f : Nat → Option Nat) (t : PairPos1 V) : Prop :=
+  ∀ g1 n1 g2 n2, f g1 = some n1 → f g2 = some n2 → t.lookup n1 n2 = t.lookup g1 g2
+
+/-- a SingleSubst with a format 1 coverage as the specification requires it -/
+def SingleWf (t : SingleSubst) : Prop :=
+  ∃ xs, t.cov = .fmt1 xs ∧ xs.Pairwise (· < ·) ∧ (∀ x ∈ xs, x < 65536) ∧ t.subst.length = xs.length
+
+/-- **passthrough_lookup_correct_iff_identity_on_mentioned_glyphs** (SingleSubst): for an injective
+glyph map and a set `M` of kept glyphs: the verbatim copy is right for EVERY well-formed SingleSubst
+subtable stated in glyphs of `M` if and only if the glyph map fixes every glyph of `M`.  So the
+pass-through is right under retain-gids (or whenever the kept glyphs a lookup mentions keep their
+ids) and wrong for some subtable as soon as one mentioned kept glyph is renumbered. -/
+theorem passthrough_lookup_correct_iff_identity_on_mentioned_glyphs (f : Nat → Option Nat)
+    (hinj : GlyphMapInj f) (M : List Nat) (hM : ∀ g ∈ M, (f g).isSome ∧ g < 65536) :
+    (∀ t : SingleSubst, SingleWf t → (∀ g ∈ t.mentioned, g ∈ M) → SingleCorrect f t) ↔
+    (∀ g ∈ M, f g = some g) := by
+  constructor
+  · intro hall g hg
+    obtain ⟨hsome, hlt⟩ := hM g hg
+    obtain ⟨n, hn⟩ := Option.isSome_iff_exists.mp hsome
+    -- the subtable "g ↦ g"
+    let t : SingleSubst := ⟨.fmt1 [g], [g]⟩
+    have hwf : SingleWf t := ⟨[g], rfl, by simp, by simpa using hlt, rfl⟩
+    have hment : ∀ x ∈ t.mentioned, x ∈ M := by
+      intro x hx
+      simp [SingleSubst.mentioned, Coverage.glyphs, t] at hx
+      subst hx; exact hg
+    have hc := hall t hwf hment g n hn
+    have hs : List.Pairwise (· < ·) [g] := by simp
+    have hb : ∀ x ∈ [g], x < 65536 := by simpa using hlt
+    have hgg : t.apply g = some g := by
+      simp only [SingleSubst.apply, t, get_fmt1 hs hb g, indexIn]
+      simp
+    rw [hgg] at hc
+    simp only [Option.bind_some, hn] at hc
+    -- the renumbered glyph must be covered
+    simp only [SingleSubst.apply, t, get_fmt1 hs hb n, indexIn] at hc
+    by_cases e : g = n
+    · rw [← e] at hn; exact hn
+    · simp [e] at hc
+  · intro hid t hwf hment g n hgn
+    obtain ⟨xs, hcov, hs, hb, hlen⟩ := hwf
+    have hget : ∀ x, t.cov.get x = indexIn x xs := by
+      intro x; rw [hcov]; exact get_fmt1 hs hb x
+    have hxsM : ∀ x ∈ xs, x ∈ M := by
+      intro x hx; apply hment
+      simp [SingleSubst.mentioned, hcov, Coverage.glyphs, hx]
+    by_cases hgM : g ∈ M
+    · have := hid g hgM
+      rw [hgn] at this; injection this with this
+      subst this
+      simp only [SingleSubst.apply]
+      cases hi : t.cov.get n with
+      | none => rfl
+      | some i =>
+        simp only
+        cases ho : t.subst[i]? with
+        | none => rfl
+        | some out =>
+          have : out ∈ M := hment out (by
+            simp only [SingleSubst.mentioned, List.mem_append]
+            right; exact List.mem_of_getElem? ho)
+          simp [hid out this]
+    · -- neither g nor its image is covered
+      have h1 : t.cov.get g = none := by
+        rw [hget]; exact indexIn_none (fun h => hgM (hxsM g h))
+      have h2 : t.cov.get n = none := by
+        rw [hget]; apply indexIn_none
+        intro h
+        have hnM := hxsM n h
+        have := hinj g n n hgn (hid n hnM)
+        subst this; exact hgM hnM
+      simp [SingleSubst.apply, h1, h2]
+
+/-- a PairPos format 1 subtable with a format 1 coverage as the specification requires it -/
+def PairWf {V : Type} (t : PairPos1 V) : Prop :=
+  ∃ xs, t.cov = .fmt1 xs ∧ xs.Pairwise (· < ·) ∧ (∀ x ∈ xs, x < 65536)
+
+/-- **passthrough_pairpos_correct_iff_identity_on_mentioned_glyphs**: the same characterisation for
+PairPos format 1 values (C16's `PairPos1.lookup`): the copied subtable gives every renumbered kept
+pair its original adjustment, for every subtable over `M`, iff the glyph map fixes `M`. -/
+theorem passthrough_pairpos_correct_iff_identity_on_mentioned_glyphs {V : Type} [Inhabited V]
+    (f : Nat → Option Nat) (hinj : GlyphMapInj f) (M : List Nat)
+    (hM : ∀ g ∈ M, (f g).isSome ∧ g < 65536) :
+    (∀ t : PairPos1 V, PairWf t → (∀ g ∈ pairMentioned t, g ∈ M) → PairCorrect f t) ↔
+    (∀ g ∈ M, f g = some g) := by
+  constructor
+  · intro hall g hg
+    obtain ⟨hsome, hlt⟩ := hM g hg
+    obtain ⟨n, hn⟩ := Option.isSome_iff_exists.mp hsome
+    let t : PairPos1 V := ⟨.fmt1 [g], [[(g, default)]]⟩
+    have hs : List.Pairwise (· < ·) [g] := by simp
+    have hb : ∀ x ∈ [g], x < 65536 := by simpa using hlt
+    have hwf : PairWf t := ⟨[g], rfl, hs, hb⟩
+    have hment : ∀ x ∈ pairMentioned t, x ∈ M := by
+      intro x hx
+      simp [pairMentioned, Coverage.glyphs, t] at hx
+      subst hx; exact hg
+    have hc := hall t hwf hment g n g n hn hn
+    have hgg : t.lookup g g = some default := by
+      simp only [PairPos1.lookup, t, get_fmt1 hs hb g, indexIn]
+      simp
+    rw [hgg] at hc
+    simp only [PairPos1.lookup, t, get_fmt1 hs hb n, indexIn] at hc
+    by_cases e : g = n
+    · rw [← e] at hn; exact hn
+    · simp [e] at hc
+  · intro hid t hwf hment g1 n1 g2 n2 h1 h2
+    obtain ⟨xs, hcov, hs, hb⟩ := hwf
+    have hget : ∀ x, t.cov.get x = indexIn x xs := by
+      intro x; rw [hcov]; exact get_fmt1 hs hb x
+    have hxsM : ∀ x ∈ xs, x ∈ M := by
+      intro x hx; apply hment
+      simp [pairMentioned, hcov, Coverage.glyphs, hx]
+    -- a glyph outside M and its image are both unmentioned
+    have houtside : ∀ g n, f g = some n → g ∉ M → n ∉ M := by
+      intro g n hgn hgM hnM
+      have := hinj g n n hgn (hid n hnM)
+      subst this; exact hgM hnM
+    by_cases hg1 : g1 ∈ M
+    · have := hid g1 hg1
+      rw [h1] at this; injection this with this
+      subst this
+      simp only [PairPos1.lookup]
+      cases hi : t.cov.get n1 with
+      | none => rfl
+      | some i =>
+        simp only
+        cases hp : t.pairSets[i]? with
+        | none => rfl
+        | some ps =>
+          simp only
+          have hsec : ∀ q ∈ ps, q.1 ∈ M := by
+            intro q hq; apply hment
+            simp only [pairMentioned, List.mem_append, List.mem_flatMap, List.mem_map]
+            right; exact ⟨ps, List.mem_of_getElem? hp, q, hq, rfl⟩
+          by_cases hg2 : g2 ∈ M
+          · have := hid g2 hg2
+            rw [h2] at this; injection this with this
+            subst this; rfl
+          · have hn2 := houtside g2 n2 h2 hg2
+            have f1 : ps.find? (fun q => q.1 == n2) = none := by
+              rw [List.find?_eq_none]; intro q hq; simp; intro e; exact hn2 (e ▸ hsec q hq)
+            have f2 : ps.find? (fun q => q.1 == g2) = none := by
+              rw [List.find?_eq_none]; intro q hq; simp; intro e; exact hg2 (e ▸ hsec q hq)
+            rw [f1, f2]
+    · have hn1 := houtside g1 n1 h1 hg1
+      have c1 : t.cov.get g1 = none := by rw [hget]; exact indexIn_none (fun h => hg1 (hxsM g1 h))
+      have c2 : t.cov.get n1 = none := by rw [hget]; exact indexIn_none (fun h => hn1 (hxsM n1 h))
+      simp [PairPos1.lookup, c1, c2]
+
+/-- corollary (retain-gids): with the identity glyph map every passed-through subtable is right -/
+theorem passthrough_correct_under_retain_gids (f : Nat → Option Nat)
+    (hid : ∀ g n, f g = some n → n = g) (t : SingleSubst) (hout : ∀ g out, t.apply g = some out → (f g).isSome → f out = some out) :
+    SingleCorrect f t := by
+  intro g n hgn
+  have := hid g n hgn
+  subst this
+  cases ha : t.apply n with
+  | none => rfl
+  | some out => simp [hout n out ha (by simp [hgn])]
+
 end FontVerif.C17Layout
